@@ -73,6 +73,55 @@ def short(q):
     return q.replace("CDNS::", "")
 
 
+def guarded_static(facts, v):
+    """A mutable function-local static is no shared *unprotected* state when it is the function's own std::mutex, or when every
+    use of it in the function lies behind a lock of such a mutex taken in the function's outermost block (std::lock_guard /
+    unique_lock / scoped_lock declared before the first use and alive to the end) and nothing of it leaves the function by
+    reference: the function returns by value and does not hand out its address.  Returns the reason, or None."""
+    t = (v.get("t") or "").replace("const ", "")
+    if t in ("std::mutex", "std::recursive_mutex", "std::shared_mutex"):
+        return "function-local static %s: the synchronisation object itself" % t
+    fns = [f for f in facts.functions.values() if f.get("body") is not None and (f["qn"] == v.get("infunc") or f["qn"].split("(")[0] == (v.get("infunc") or "").split("(")[0])]
+    if len(fns) != 1:
+        return None
+    f = fns[0]
+    if (f.get("ret") or "").rstrip().endswith(("&", "*")):
+        return None                 # a reference / pointer into the guarded object would be used after the lock is gone
+    top = ir.stmts(f["body"])
+    lock_at = None
+    mutex = None
+    for i, st in enumerate(top):
+        if st.get("k") == "Decl":
+            for d in st.get("vars", []):
+                dt = (d.get("t") or "")
+                if dt.startswith(("std::lock_guard<", "std::unique_lock<", "std::scoped_lock<")) and d.get("init") is not None:
+                    for x in ir.walk(d["init"]):
+                        if x.get("k") == "Ref" and x.get("d") == "staticlocal" and "mutex" in (x.get("t") or ""):
+                            lock_at, mutex = i, x.get("n")
+        if lock_at is not None:
+            break
+    if lock_at is None:
+        return None
+    name = v["qn"].split("::")[-1]
+    for i, st in enumerate(top):
+        for x in ir.walk(st):
+            if x.get("k") == "Ref" and x.get("d") == "staticlocal" and x.get("n") == name:
+                if i <= lock_at and st.get("k") != "Decl":
+                    return None
+                if i <= lock_at and not any(d.get("n") == name for d in st.get("vars", [])):
+                    return None
+            if x.get("k") == "MCall" and callee_name(x) in ("unlock", "release") and "lock" in show(x.get("recv")):
+                return None
+    # nothing of it escapes: no address taken into a member / global / returned pointer
+    for x in ir.walk(f["body"]):
+        if x.get("k") == "Return" and x.get("e") is not None:
+            u = unwrap_all_casts(x["e"])
+            if isinstance(u, dict) and u.get("k") == "Un" and u.get("op") == "&":
+                return None
+    return "function-local static of type %s: every use lies behind the lock of %s taken at the top of %s, which returns by value" % (
+        v.get("t"), mutex, short(f["qn"]))
+
+
 def check(run):
     # distinct outputs are written through distinct scratch files: scratch name = final name + .part (R15.1/R15.2 imported)
     from .. import derived as _derived
@@ -95,6 +144,11 @@ def check(run):
             run.ob("R20.1", "static:%s" % short(v["qn"]), True, v["file"], v["line"], "thread_local object of type %s: not shared between threads" % v["t"])
             continue
         where = "function-local static in %s" % v["infunc"] if v.get("staticlocal") else ("static member" if v.get("staticmember") else "namespace scope")
+        if not immutable and v.get("staticlocal"):
+            how = guarded_static(facts, v)
+            if how:
+                run.ob("R20.1", "static:%s" % short(v["qn"]) + "@%s" % short(v.get("infunc", "")), True, v["file"], v["line"], how)
+                continue
         run.ob("R20.1", "static:%s" % short(v["qn"]) + ("@%s" % short(v.get("infunc", "")) if v.get("staticlocal") else ""), immutable,
                v["file"], v["line"],
                "%s object of type %s is immutable" % (where, v["t"]) if immutable else
